@@ -49,7 +49,7 @@ class EncircledEnergy(SpotDiagram):
 
         data = self._center_spots(deepcopy(self.data))
         geometric_size = self.geometric_spot_radius()
-        axis_lim = np.max(geometric_size)
+        axis_lim = np.nanmax(geometric_size)
         for k, field_data in enumerate(data):
             self._plot_field(ax, field_data, self.fields[k],
                              axis_lim, self.num_points)
@@ -73,8 +73,8 @@ class EncircledEnergy(SpotDiagram):
         """
         centroid = []
         for field_data in self.data:
-            centroid_x = np.mean(field_data[0][0])
-            centroid_y = np.mean(field_data[0][1])
+            centroid_x = np.nanmean(field_data[0][0])
+            centroid_y = np.nanmean(field_data[0][1])
             centroid.append((centroid_x, centroid_y))
         return centroid
 
